@@ -34,9 +34,16 @@ pub fn replay(input: &str, out: &mut Out) {
         };
         if let Some(why) = why {
             bad += 1;
-            if bad <= 30 {
-                out.line(&json!({"line": i, "identifier": s, "why": why}));
-            }
+            // with what the real functions returned: the check decides whether the difference breaks the property
+            // (an illegal identifier, or two identifiers mapped together that the specification keeps apart)
+            let real = guarded(|| {
+                let f = rust_field_name(&s);
+                json!({"genField": asn1rs_model::generate::rust::RustCodeGenerator::rust_field_name(&f, true),
+                       "genVariant": asn1rs_model::generate::rust::RustCodeGenerator::rust_variant_name(&rust_variant_name(&s)),
+                       "typeName": rust_struct_or_enum_name(&s), "const": rust_constant_name(&s)})
+            }).unwrap_or(Value::Null);
+            out.line(&json!({"line": i, "identifier": s, "why": why, "real": real,
+                "predicted": {"genField": text(&c["genField"]), "genVariant": text(&c["genVariant"]), "typeName": text(&c["typeName"]), "const": text(&c["const"])}}));
         }
     }
     out.line(&json!({"summary": true, "cases": n, "mismatches": bad}));
